@@ -854,6 +854,12 @@ func (m *machine) drawAnnounced(t *rapid.T, pi int, reply bool) ([]entry, delta)
 			entries = append(entries, entry{Spec: spec})
 			d.appeared = append(d.appeared, k)
 			tr[k] = clone(spec)
+			if rapid.IntRange(0, 4).Draw(t, lbl+".listedTwice") == 0 {
+				// a repeated add inside one message: the new entity is listed twice (as it is); it
+				// appears once
+				entries = append(entries, entry{Spec: *clone(spec)})
+				world.Label("entry/new-entity-listed-twice")
+			}
 		}
 	}
 	// the order of the list carries no meaning
